@@ -69,10 +69,28 @@ class ProviderSink(object):
         self.msg = None
         self.pc_id = None
 
+    spool = None               # one file all received instances are appended to (an entity may store that way)
+
     def get_file(self, ctx, command_set):
+        if self.spool is not None:
+            # the documented contract: return the file AND the position at which this instance starts
+            self.spool.seek(0, 2)
+            start = self.spool.tell()
+            D.applicationentity.write_meta(self.spool, command_set, ctx.supported_ts)
+            return self.spool, start
         fp, start = self.ae.get_file(ctx, command_set)
         self.opened.append(fp)
         return fp, start
+
+    def request_release(self):
+        """The local user asks for release now (AR-1 is performed by the real state machine): what the peer still
+        sends arrives in Sta7."""
+        self.sm.current_state = D.fsm.States.STA_6
+        self.prov.primitive = D.pdu.AReleaseRqPDU()
+        ns = self.sm.ar_1()
+        if ns != D.fsm.States.STA_7:
+            raise RuntimeError('AR-1 led to Sta%d' % (ns + 1))
+        self.releasing = True
 
     releasing = False          # the local user has asked for release: P-DATA arrives in Sta7 and is handled by AR-6
 
@@ -93,7 +111,7 @@ class ProviderSink(object):
             self.receiving = True
 
 
-def feed_and_check(v, frags, groups, cmd_bytes, data_bytes, pc_id, cls_name, mode, ts, meta, trace=None, sink=None):
+def feed_and_check(v, frags, groups, cmd_bytes, data_bytes, pc_id, cls_name, mode, ts, meta, trace=None, sink=None, release_after=None):
     """frags: list of (is_cmd, last, payload); groups: list of (k, expected_receiving or None).
     mode: 'mem' | 'file' | 'dir'.  Returns list of Feed events (for code->spec validation).
     sink: a ProviderSink shared by the messages of one association (default: a fresh DIMSEDecoder)."""
@@ -131,6 +149,8 @@ def feed_and_check(v, frags, groups, cmd_bytes, data_bytes, pc_id, cls_name, mod
                      'DIMSEDecoder.process raised %s: %s on PDU %d of %s' % (type(exc).__name__, exc, gi + 1, where), replay=meta)
             return None
         events.append({'ev': 'Feed', 'k': k, 'receiving': bool(dec.receiving)})
+        if release_after is not None and gi == release_after and dec.receiving and sink is not None:
+            sink.request_release()          # the rest of this message arrives after the local release request
         if exp is not None and bool(dec.receiving) != exp:
             v.report({'site': 'fsm.DIMSEDecoder', 'clause': 'completion', 'early': not dec.receiving},
                      'after PDU %d of %d (grouping %s) receiving=%s, the specification says %s; %s'
@@ -170,9 +190,10 @@ def feed_and_check(v, frags, groups, cmd_bytes, data_bytes, pc_id, cls_name, mod
                 problems.append('file-backed reception handed over %s' % type(ds).__name__)
             else:
                 try:
+                    pos = ds.tell()                 # the application gets the file positioned where its instance begins
                     raw = ds.read()
-                    ds.seek(0)
-                    f = pydicom.dcmread(ds)
+                    ds.seek(pos)
+                    f = pydicom.dcmread(io.BytesIO(raw))
                     if f.file_meta.TransferSyntaxUID != ts:
                         problems.append('file transfer syntax %s, negotiated %s' % (f.file_meta.TransferSyntaxUID, ts))
                     if not raw.endswith(data_bytes) or raw[:132] != b'\0' * 128 + b'DICM':
@@ -267,6 +288,9 @@ def main(tier='quick'):
         if order == 'scp-scu':
             node.add_scu(D.sopclass.storage_scu, [STORE_SOP])
         sink = ProviderSink(ctxs, node.store_in_file)
+        if si % 5 == 2:
+            import tempfile as _tf
+            sink.spool = _tf.TemporaryFile()
         n_sessions += 1
         for mi in range(rng.choice([2, 3, 4])):
             beh = behaviours[rng.randrange(len(behaviours))]
@@ -310,8 +334,12 @@ def main(tier='quick'):
             # the last message of some sessions arrives after the local release request (Sta7, AR-6)
             sink.releasing = (mi >= 1 and si % 4 == 3)
             meta['after_release_request'] = sink.releasing
-            if feed_and_check(v, frags, groups, cmd, data, pcid, cls_name, mode, ts, meta, sink=sink) is None:
+            rel = 0 if (si % 4 == 1 and mi >= 1 and len(groups) >= 2 and not sink.releasing) else None
+            meta['release_requested_after_pdu'] = rel
+            if feed_and_check(v, frags, groups, cmd, data, pcid, cls_name, mode, ts, meta, sink=sink, release_after=rel) is None:
                 break
+            if rel is not None:
+                break                      # the association is being released: nothing more is sent
             n_replayed += 1
     # ---- code -> spec: the library's own fragments, regrouped
     traces, metas = [], []
